@@ -1,6 +1,7 @@
 package props
 
 import (
+	"os"
 	"fmt"
 	"go/ast"
 	"go/token"
@@ -260,7 +261,18 @@ func (a *curAnalysis) need(fd *core.FuncDecl, at ast.Node, e ast.Expr, why strin
 		}
 		// checked getter idiom: v := doc.getX() after `if doc.getX().Def() == nil { return | doc.setX(valid) }`
 		if a.checkedGetter(fd, at, x) {
+			a.checked(fd, at, e)
 			return false
+		}
+		// established getter: every path to here passes a statement where R.getX() (or a local
+		// holding it) is known to have a definition, or a call R.setX(<definition field>)
+		if a.getterEstablished(fd, at, x) {
+			a.checked(fd, at, e)
+			return false
+		}
+		// set-then-get: `doc.setX(v); … = doc.getX()` as consecutive statements: the value is v
+		if arg := setJustBefore(info, fd.Decl.Body, at, x); arg != nil {
+			return a.need(fd, at, arg, why, depth+1)
 		}
 		// a function returning a code: all its returns must be valid sources
 		if fn := core.Callee(info, x); fn != nil && core.InModule(fn.Pkg()) {
@@ -787,4 +799,150 @@ func (a *curAnalysis) repairedBefore(fd *core.FuncDecl, v *types.Var, at ast.Nod
 		return true
 	})
 	return pos
+}
+
+// setJustBefore: get is `R.getN()` and the statement directly before the one
+// containing `at`, in the same list, is `R.setN(arg)`: the argument.
+func setJustBefore(info *types.Info, body *ast.BlockStmt, at ast.Node, get *ast.CallExpr) ast.Expr {
+	gse, ok := ast.Unparen(get.Fun).(*ast.SelectorExpr)
+	if !ok || len(get.Args) != 0 || !strings.HasPrefix(gse.Sel.Name, "get") {
+		return nil
+	}
+	want := "set" + strings.TrimPrefix(gse.Sel.Name, "get")
+	var res ast.Expr
+	ast.Inspect(body, func(n ast.Node) bool {
+		var list []ast.Stmt
+		switch x := n.(type) {
+		case *ast.BlockStmt:
+			list = x.List
+		case *ast.CaseClause:
+			list = x.Body
+		}
+		for i, s := range list {
+			if i == 0 || !(s.Pos() <= at.Pos() && at.End() <= s.End()) {
+				continue
+			}
+			// the getter call must be in this very statement, not nested in a deeper list
+			if _, isSimple := s.(*ast.AssignStmt); !isSimple {
+				continue
+			}
+			es, ok := list[i-1].(*ast.ExprStmt)
+			if !ok {
+				continue
+			}
+			call, ok := ast.Unparen(es.X).(*ast.CallExpr)
+			if !ok || len(call.Args) != 1 {
+				continue
+			}
+			sse, ok := ast.Unparen(call.Fun).(*ast.SelectorExpr)
+			if ok && sse.Sel.Name == want && sameExpr(sse.X, gse.X) {
+				res = call.Args[0]
+			}
+		}
+		return true
+	})
+	return res
+}
+
+// getterEstablished: get is `R.getN()`; every path from the entry to `at` goes
+// through a statement at which `<g>.Def() != nil` is known for g = R.getN() or a
+// local defined from it, or through a statement `R.setN(v)` with v a field of a
+// definition; and no `R.setN(other)` exists in the function.
+func (a *curAnalysis) getterEstablished(fd *core.FuncDecl, at ast.Node, get *ast.CallExpr) bool {
+	info := fd.Pkg.TypesInfo
+	gse, ok := ast.Unparen(get.Fun).(*ast.SelectorExpr)
+	if !ok || len(get.Args) != 0 || !strings.HasPrefix(gse.Sel.Name, "get") {
+		return false
+	}
+	setName := "set" + strings.TrimPrefix(gse.Sel.Name, "get")
+	ff := core.NewFuncFlow(fd)
+	ld := core.NewLocalDefs(info, fd.Decl.Body)
+	isGet := func(e ast.Expr) bool {
+		e = ast.Unparen(e)
+		if v := core.VarOf(info, e); v != nil {
+			ds := ld.All(v)
+			if len(ds) != 1 || ds[0].RHS == nil || ds[0].N != 1 {
+				return false
+			}
+			e = ast.Unparen(ds[0].RHS)
+		}
+		c, ok := e.(*ast.CallExpr)
+		if !ok || len(c.Args) != 0 {
+			return false
+		}
+		se, ok := ast.Unparen(c.Fun).(*ast.SelectorExpr)
+		return ok && se.Sel.Name == gse.Sel.Name && sameExpr(se.X, gse.X)
+	}
+	validSet := func(n ast.Node) (isSet, valid bool) {
+		es, ok := n.(*ast.ExprStmt)
+		if !ok {
+			return false, false
+		}
+		call, ok := ast.Unparen(es.X).(*ast.CallExpr)
+		if !ok || len(call.Args) != 1 {
+			return false, false
+		}
+		se, ok := ast.Unparen(call.Fun).(*ast.SelectorExpr)
+		if !ok || se.Sel.Name != setName || !sameExpr(se.X, gse.X) {
+			return false, false
+		}
+		if as, ok := ast.Unparen(call.Args[0]).(*ast.SelectorExpr); ok {
+			if o := fieldOwner(info, as); o != nil && definitionType(o) {
+				return true, true
+			}
+		}
+		return true, false
+	}
+	// an invalid set anywhere spoils it
+	spoiled := false
+	ast.Inspect(fd.Decl.Body, func(n ast.Node) bool {
+		if isSet, valid := validSet(n); isSet && !valid {
+			spoiled = true
+		}
+		return true
+	})
+	if spoiled {
+		return false
+	}
+	node := ff.Flow.EnclosingNode(at)
+	if node == nil {
+		return false
+	}
+	dbg := os.Getenv("GOBLCHECK_DEBUG_GETTER") != ""
+	if dbg {
+		os.Setenv("GOBLCHECK_DEBUG_PATH", "1")
+		fmt.Fprintf(os.Stderr, "=== getterEstablished %s at %s\n", fd.Name(), a.p.Rel(at.Pos()))
+		defer os.Unsetenv("GOBLCHECK_DEBUG_PATH")
+	}
+	return ff.Flow.EveryPathPasses(node, func(n ast.Node) bool {
+		if dbg {
+			fmt.Fprintf(os.Stderr, "getterEstablished %s: node %T %s conds=%d\n", fd.Name(), n, a.p.Rel(n.Pos()), len(ff.Flow.CondsAt(n)))
+		}
+		if _, valid := validSet(n); valid {
+			return true
+		}
+		for leaf, val := range ff.Flow.CondsAt(n) {
+			be, ok := ast.Unparen(leaf).(*ast.BinaryExpr)
+			if !ok || !((be.Op == token.NEQ && val) || (be.Op == token.EQL && !val)) {
+				continue
+			}
+			x, y := ast.Unparen(be.X), ast.Unparen(be.Y)
+			if core.IsNil(info, x) {
+				x, y = y, x
+			}
+			if !core.IsNil(info, y) {
+				continue
+			}
+			if cl, ok := x.(*ast.CallExpr); ok {
+				op := defCallOperand(info, cl)
+				if dbg {
+					fmt.Fprintf(os.Stderr, "   leaf %s op=%v isGet=%v\n", types.ExprString(leaf), op != nil, op != nil && isGet(op))
+				}
+				if op != nil && isGet(op) {
+					return true
+				}
+			}
+		}
+		return false
+	})
 }
